@@ -9,27 +9,34 @@ Open Scope Z_scope.
    on the empty queue, returns at every step what the reference FIFO returns and
    leaves the contents the reference FIFO has. *)
 Theorem C17_refines_fifo : forall ops : list qop,
-  map (fun rq => (out_abs (fst rq), q_abs (snd rq))) (q_run [] ops) = f_run [] ops.
-Proof. intros ops. exact (run_refines ops []). Qed.
+  map (fun rq => (out_abs (fst rq), q_abs (snd rq))) (q_run q_init ops) = f_run [] ops.
+Proof. intros ops. exact (run_refines ops q_init). Qed.
 
 (* Peeks (and Empty) never modify the queue, ids included. *)
-Theorem C17_peek_pure : forall q o, is_peek o = true -> fst (q_step q o) = q.
+Theorem C17_peek_pure : forall st o, is_peek o = true -> fst (q_step st o) = st.
 Proof. exact peek_pure. Qed.
 
 (* After every step of every history the queued ids are strictly increasing
    from head to tail (head = oldest, by C17_refines_fifo). *)
 Theorem C17_ids_increasing : forall ops : list qop,
-  Forall (fun rq => StronglySorted Z.lt (map fst (snd rq))) (q_run [] ops).
-Proof. intros ops. apply (run_sorted ops []). constructor. Qed.
+  Forall (fun rq => StronglySorted Z.lt (map fst (snd rq))) (q_run q_init ops).
+Proof. intros ops. apply (run_sorted ops q_init). apply init_inv. Qed.
+
+(* Sequence numbers count the stanzas pushed on the queue object: in every reachable
+   state the next push gets lastId + 1, also after pops emptied the queue. *)
+Theorem C17_numbering_continues : forall st s, q_inv st ->
+  push_id st = snd st + 1 /\ q_inv (q_push st s).
+Proof. intros st s H. split; [apply push_id_init_inv; exact H|apply push_inv; exact H]. Qed.
 
 (* non-vacuity: a history that empties and refills the queue *)
 Example C17_example :
-  q_run [] [QPush [1%N]; QPush [2%N]; QPopN 5; QPush [3%N]; QPeekN (-1); QPop; QEmpty]
+  q_run q_init [QPush [1%N]; QPush [2%N]; QPopN 5; QPush [3%N]; QPeekN (-1); QPop; QEmpty]
   = [(QNil, [(1, [1%N])]); (QNil, [(1, [1%N]); (2, [2%N])]);
-     (QMany [(1, [1%N]); (2, [2%N])], []); (QNil, [(1, [3%N])]);
-     (QNil, [(1, [3%N])]); (QOne (1, [3%N]), []); (QBool true, [])].
+     (QMany [(1, [1%N]); (2, [2%N])], []); (QNil, [(3, [3%N])]);
+     (QNil, [(3, [3%N])]); (QOne (3, [3%N]), []); (QBool true, [])].
 Proof. reflexivity. Qed.
 
 Print Assumptions C17_refines_fifo.
 Print Assumptions C17_peek_pure.
 Print Assumptions C17_ids_increasing.
+Print Assumptions C17_numbering_continues.
